@@ -216,7 +216,7 @@ def find_component(text, masked, region, comp):
     region: (start, end) inside which items at relative brace depth 0 are searched.
     Returns list of (item_start, body_open or -1, item_end) candidates."""
     rs, re_ = region
-    mk = re.match(r'(impl|fn|mod|enum|struct|trait|type)\b', comp)
+    mk = re.match(r'(impl|fn|mod|enum|struct|trait|type|const|static)\b', comp)
     if not mk:
         raise ScanError('bad locator component: ' + comp)
     kind = mk.group(1)
